@@ -24,11 +24,13 @@
  *   ereq <from> <to> <ver>        extension request likewise
  *   sign <hash-hex> <level> <ver> <key-hex> <reply-hex>     KSI_Signature_signAggregated
  *   ext <sig-hex> <to|-> <ver> <key-hex> <reply-hex>        KSI_Signature_extendTo
+ *   vcal <sig-hex> - <ver> <key-hex> <reply-hex>            calendar-based verification (the extender's reply through the file transport)
  *   tree <alg> <n> <md every m>   tree builder: n leaves (every m-th with metadata), close, every leaf's chain
  *   build <sig-hex> <level>       signature builder: open from a signature, close at a level
  *   pubf <hex> <time>             publications file: parse, latest / nearest publication, certificate by id
  *   pubs <string>                 publication string: fromBase32, toBase32
  *   hmac <alg> <key-hex> <data-hex>
+ *   bsig <alg> <n> <m>            block signer with masking: n leaves (every m-th with metadata), close, every leaf's signature
  *   async <hash-hex> <level> <key-hex> <reply-stream-hex>   asynchronous signing service on a scripted socket: endpoint, one request, run until the
  *                                 handle is back, its signature
  *   ha <hash-hex> <level> <key-hex> <reply-stream-hex>      the same through the high-availability service with two sub-services
@@ -53,6 +55,7 @@
 #include <ksi/tree_builder.h>
 #include <ksi/signature_builder.h>
 #include <ksi/hashchain.h>
+#include <ksi/blocksigner.h>
 
 /* ---------------- the failing allocator ---------------- */
 static size_t v_count, v_live, v_fired, v_at; static int v_armed, v_mode; static unsigned long long v_seed; static unsigned v_density;
@@ -76,6 +79,8 @@ static void v_free(void *p) { if (p) { v_live--; free(p); } }
 #undef malloc
 #undef calloc
 #undef free
+
+#include <ksi/blocksigner.c>      /* the block signer's structure (its root signature is installed by hand) */
 
 /* the asynchronous TCP client on a scripted socket and clock (as in exec_c13.c / exec_c07.c) */
 #define VERIF_SIM_ONLY 1
@@ -264,6 +269,8 @@ static int run_ver(Env *e, char *out) {
 	vc.signature = e->sig; vc.documentHash = e->hsh;
 	res = KSI_SignatureVerifier_verify(KSI_VERIFICATION_POLICY_INTERNAL, &vc, &r);
 	if (res == KSI_OK) snprintf(out, 64, "%d:%d", (int)r->finalResult.resultCode, (int)r->finalResult.errorCode);
+	/* an inconclusive verdict that carries the status of what went wrong is the verifier's way of reporting an error */
+	if (res == KSI_OK && r->finalResult.resultCode == KSI_VER_RES_NA && r->finalResult.status != KSI_OK) res = r->finalResult.status;
 	KSI_PolicyVerificationResult_free(r);
 	vc.signature = NULL; vc.documentHash = NULL;
 	KSI_VerificationContext_clean(&vc);
@@ -343,6 +350,21 @@ static int run_ext(Env *e, char *out) {
 cleanup:
 	if (res != KSI_OK && x != NULL) snprintf(out, 64, "RESULT-WITH-ERROR");
 	KSI_free(ser); KSI_Signature_free(x); KSI_Integer_free(to);
+	return res;
+}
+
+/* calendar-based verification: the extender (file transport) is asked for the calendar chain up to the signature's publication time */
+static int run_vcal(Env *e, char *out) {
+	int res; KSI_VerificationContext vc; KSI_PolicyVerificationResult *r = NULL;
+	e->ctx->requestCounter = 0; if (e->ctx->netProvider) e->ctx->netProvider->requestCount = 0;
+	res = KSI_VerificationContext_init(&vc, e->ctx); if (res != KSI_OK) return res;
+	vc.signature = e->sig; vc.extendingAllowed = 1;
+	res = KSI_SignatureVerifier_verify(KSI_VERIFICATION_POLICY_CALENDAR_BASED, &vc, &r);
+	if (res == KSI_OK) snprintf(out, 64, "%d:%d", (int)r->finalResult.resultCode, (int)r->finalResult.errorCode);
+	if (res == KSI_OK && r->finalResult.resultCode == KSI_VER_RES_NA && r->finalResult.status != KSI_OK) res = r->finalResult.status;
+	KSI_PolicyVerificationResult_free(r);
+	vc.signature = NULL;
+	KSI_VerificationContext_clean(&vc);
 	return res;
 }
 
@@ -487,11 +509,67 @@ cleanup:
 static int run_async(Env *e, char *out) { return run_async_n(e, out, 1); }
 static int run_ha(Env *e, char *out) { return run_async_n(e, out, 2); }
 
+/* block signer: masking, every m-th leaf with metadata, the tree closed, the root signature an aggregator returns for (root, level)
+ * installed (as in exec_c16.c), every leaf's signature taken */
+static int run_bsig(Env *e, char *out) {
+	int res, alg = atoi(e->w[0]), n = atoi(e->w[1]), m = atoi(e->w[2]), i; KSI_BlockSigner *bs = NULL; KSI_BlockSignerHandle **bh = calloc((size_t)n + 1, sizeof(*bh));
+	KSI_DataHash *d = NULL; KSI_MetaData *md = NULL; KSI_Utf8String *cid = NULL; KSI_OctetString *iv = NULL; KSI_Signature *rootSig = NULL, *ls = NULL;
+	unsigned long long h = FNV0; unsigned char ivb[32]; unsigned char *ser = NULL; size_t sl = 0;
+	memset(ivb, 0x17, sizeof(ivb));
+	res = KSI_OctetString_new(e->ctx, ivb, sizeof(ivb), &iv); if (res != KSI_OK) goto cleanup;
+	res = KSI_DataHash_createZero(e->ctx, (KSI_HashAlgorithm)alg, &d); if (res != KSI_OK) goto cleanup;
+	res = KSI_BlockSigner_new(e->ctx, (KSI_HashAlgorithm)alg, d, iv, &bs); if (res != KSI_OK) goto cleanup;
+	KSI_DataHash_free(d); d = NULL;
+	for (i = 0; i < n; i++) {
+		unsigned char dig[64]; memset(dig, i + 1, sizeof(dig));
+		res = KSI_DataHash_fromDigest(e->ctx, (KSI_HashAlgorithm)alg, dig, KSI_getHashLength((KSI_HashAlgorithm)alg), &d); if (res != KSI_OK) goto cleanup;
+		if (m > 0 && i % m == m - 1) {
+			char name[32]; snprintf(name, sizeof(name), "client-%d", i);
+			res = KSI_MetaData_new(e->ctx, &md); if (res != KSI_OK) goto cleanup;
+			res = KSI_Utf8String_new(e->ctx, name, strlen(name) + 1, &cid); if (res != KSI_OK) goto cleanup;
+			res = KSI_MetaData_setClientId(md, cid); if (res != KSI_OK) goto cleanup;
+			KSI_Utf8String_free(cid); cid = NULL;
+		}
+		res = KSI_BlockSigner_addLeaf(bs, d, i % 2, md, &bh[i]); if (res != KSI_OK) goto cleanup;
+		KSI_DataHash_free(d); d = NULL; KSI_MetaData_free(md); md = NULL;
+	}
+	res = KSI_TreeBuilder_close(bs->builder); if (res != KSI_OK) goto cleanup;
+	{
+		unsigned char raw[512], chain[400], link[80]; size_t cl = 0, ll = 0, rl = 0; const unsigned char *imp = NULL; size_t il = 0; int lvl = (int)bs->builder->rootNode->level;
+		KSI_DataHash_getImprint(bs->builder->rootNode->hash, &imp, &il);
+		if (lvl > 0) { link[ll++] = 0x01; link[ll++] = 1; link[ll++] = (unsigned char)lvl; }
+		link[ll++] = 0x02; link[ll++] = 33; link[ll++] = 1; memset(link + ll, 0x5a, 32); ll += 32;
+		chain[cl++] = 0x02; chain[cl++] = 4; chain[cl++] = 0x59; chain[cl++] = 0x68; chain[cl++] = 0x2f; chain[cl++] = 0x00;
+		chain[cl++] = 0x03; chain[cl++] = 1; chain[cl++] = 3;
+		chain[cl++] = 0x05; chain[cl++] = (unsigned char)il; memcpy(chain + cl, imp, il); cl += il;
+		chain[cl++] = 0x06; chain[cl++] = 1; chain[cl++] = 1;
+		chain[cl++] = 0x07; chain[cl++] = (unsigned char)ll; memcpy(chain + cl, link, ll); cl += ll;
+		raw[rl++] = 0x88; raw[rl++] = 0x00; raw[rl++] = 0; raw[rl++] = (unsigned char)(cl + 4);
+		raw[rl++] = 0x88; raw[rl++] = 0x01; raw[rl++] = 0; raw[rl++] = (unsigned char)cl; memcpy(raw + rl, chain, cl); rl += cl;
+		res = KSI_Signature_parseWithPolicy(e->ctx, raw, rl, KSI_VERIFICATION_POLICY_EMPTY, NULL, &rootSig); if (res != KSI_OK) goto cleanup;
+		bs->signature = rootSig; rootSig = NULL;
+	}
+	for (i = 0; i < n; i++) {
+		res = KSI_BlockSignerHandle_getSignature(bh[i], &ls); if (res != KSI_OK) goto cleanup;
+		res = KSI_Signature_serialize(ls, &ser, &sl); if (res != KSI_OK) goto cleanup;
+		h = fnv(h, ser, sl);
+		KSI_free(ser); ser = NULL; KSI_Signature_free(ls); ls = NULL;
+	}
+	put_digest(out, h, (size_t)n);
+cleanup:
+	KSI_free(ser); KSI_Signature_free(ls); KSI_Signature_free(rootSig);
+	KSI_Utf8String_free(cid); KSI_MetaData_free(md); KSI_DataHash_free(d); KSI_OctetString_free(iv);
+	for (i = 0; i < n; i++) KSI_BlockSignerHandle_free(bh[i]);
+	free(bh);
+	KSI_BlockSigner_free(bs);
+	return res;
+}
+
 static const struct op { const char *name; int minargs; int (*setup)(Env *); int (*run)(Env *, char *); } OPS[] = {
 	{ "lst", 1, su_none, run_lst }, { "tlvp", 1, su_blob, run_tlvp }, { "list", 1, su_none, run_list }, { "tlv", 1, su_blob, run_tlv }, { "el", 1, su_blob, run_el }, { "sig", 1, su_blob, run_sig },
 	{ "ver", 2, su_ver, run_ver }, { "areq", 3, su_areq, run_areq }, { "ereq", 3, su_ereq, run_ereq }, { "sign", 5, su_sign, run_sign },
 	{ "ext", 5, su_ext, run_ext }, { "tree", 3, su_none, run_tree }, { "build", 2, su_sig, run_build }, { "pubf", 2, su_blob, run_pubf },
-	{ "pubs", 1, su_none, run_pubs }, { "hmac", 3, su_hmac, run_hmac }, { "async", 4, su_async, run_async }, { "ha", 4, su_async, run_ha },
+	{ "pubs", 1, su_none, run_pubs }, { "hmac", 3, su_hmac, run_hmac }, { "async", 4, su_async, run_async }, { "ha", 4, su_async, run_ha }, { "bsig", 3, su_none, run_bsig }, { "vcal", 5, su_ext, run_vcal },
 };
 
 /* one experiment: new context and inputs, the operation under the armed fault(s), the repeat, everything freed */
